@@ -42,6 +42,9 @@ CONSTANTS Cfgs,       \* set of <<base_capacity, max_buffer_size, mode>>, mode i
           Sizes,      \* caller buffer sizes for read / write
           Ks,         \* short-transfer sizes of the inner stream
           Fuel,       \* bound on the retry loop inside one poll (exceeding it = livelock)
+          OldReadLimit, \* FALSE: the code as repaired by a1c242c (the slice handed to the inner read is clamped
+                      \* to max_buffer_size); TRUE: the pinned code before the repair (all spare room
+                      \* offered) - kept for the control run that must violate ReadLimitStrict
           WakeAll,    \* TRUE: as the code is (WakerArrayRef wakes every registered slot); FALSE: a
                       \* broken variant that wakes one slot only (negative control of the wake property)
           Detail      \* TRUE: the return register keeps sizes, bytes, outcomes and offered room
@@ -126,7 +129,9 @@ FillPrelude(r) ==
                         ELSE b1
             IN [r |-> [r EXCEPT !.b = b2], st |-> "call"]
 
-Space(r) == r.b.cap - BLen(r.b)                     \* inner.slice(len..) as offered to stream.read
+\* the room offered to stream.read: inner.slice(len..min(capacity, max_buffer_size));
+\* before the repair: inner.slice(len..)
+Space(r) == (IF OldReadLimit THEN r.b.cap ELSE Min(r.b.cap, cfg.max)) - BLen(r.b)
 
 SrcBound == IF cfg.mode = "sync" THEN MaxSrc ELSE MaxSrcA
 AccBound == IF cfg.mode = "sync" THEN MaxAcc ELSE MaxAccA
@@ -398,10 +403,11 @@ WriteFifo == W.ok /\ View(W.b) = Range(W.sink + 1, W.acc)
 \*     it either - except for the recorded deviation below
 WriteLimit == Len(View(W.b)) <= cfg.max
 ReadLimitStrict == Len(View(R.b)) <= cfg.max
-\* recorded deviation of the pinned code (known finding C12-read-limit-overshoot): fill_read_buf
-\* checks len >= max before the read but offers the inner stream all spare room (at least
-\* base_capacity), so a fill that starts below the limit can end up to base-1 bytes above it
-KnownReadOvershoot == cfg.base > 1 /\ BLen(R.b) <= cfg.max + cfg.base - 1
+\* deviation of the pinned code before commit a1c242c (finding C12-read-limit-overshoot, fixed):
+\* fill_read_buf checked len >= max before the read but offered the inner stream all spare room
+\* (at least base_capacity), so a fill that started below the limit could end up to base-1 bytes
+\* above it.  Only the control configuration (OldReadLimit = TRUE) still has it.
+KnownReadOvershoot == OldReadLimit /\ cfg.base > 1 /\ BLen(R.b) <= cfg.max + cfg.base - 1
 ReadLimit == ReadLimitStrict \/ KnownReadOvershoot
 \* the limit is reported: a fill that starts at or above the limit fails with OutOfMemory and
 \* never asks the inner stream (it keeps the data)
